@@ -210,6 +210,33 @@ func ruleLogShapes(c *eng.Ctx) {
 			}
 			c.Check(ok, "segment."+f+" set by the first write only", p.Pos(fn.Pos()), "stored exactly on firstWriteTime == 0", "segment."+f+" is not set (only) by the first write: OldestOffset / timestamp lookups report a wrong first message")
 		}
+		// which entry of the batch feeds which field: first* from entries[0], last* from entries[len(entries)-1]
+		fromEntry := func(v ssa.Value, field string, last bool) bool {
+			f, b := eng.FieldRead(v)
+			if f == nil || f.Name() != field {
+				return false
+			}
+			ia := indexOfLoad(eng.Strip(b))
+			if ia == nil || !eng.Param("entries")(ia.X) {
+				return false
+			}
+			if last {
+				return eng.Bin(token.SUB, eng.Len(eng.Param("entries")), eng.IntConst(1))(ia.Index)
+			}
+			return eng.IntConst(0)(ia.Index)
+		}
+		for _, x := range []struct {
+			f, src string
+			last   bool
+		}{{"firstOffset", "Offset", false}, {"firstWriteTime", "Timestamp", false}, {"lastOffset", "Offset", true}, {"lastWriteTime", "Timestamp", true}} {
+			fo := p.Field(clPkg, "segment", x.f)
+			ok := false
+			for _, st := range eng.FieldStores(fn, func(fa *ssa.FieldAddr) bool { return fieldIs(fa, fo) }) {
+				ok = fromEntry(st.Val, x.src, x.last)
+			}
+			which := map[bool]string{true: "last", false: "first"}[x.last]
+			c.Check(ok, "segment."+x.f+" comes from the "+which+" entry of the batch", p.Pos(fn.Pos()), "s."+x.f+" = entries["+map[bool]string{true: "len-1", false: "0"}[x.last]+"]."+x.src, "segment.write fills "+x.f+" from another entry or field than the "+which+" entry's "+x.src+": with multi-message batches the segment's bookkeeping (next offset, age of its newest message) is wrong — e.g. the age limit removes a segment whose newest message is still inside the window")
+		}
 		for _, f := range []string{"lastOffset", "lastWriteTime"} {
 			fo := p.Field(clPkg, "segment", f)
 			sts := eng.FieldStores(fn, func(fa *ssa.FieldAddr) bool { return fieldIs(fa, fo) })
